@@ -282,7 +282,8 @@ class C05(Check):
                 else:
                     snaps += 1
         return dict(implementation_calls=calls, probe_calls=probes, snapshots_compared=snaps, result_classes=rcs,
-                    facts_extracted=self._facts())
+                    facts_extracted=dict(self._facts(), **({"extractor_refused": self._facts_error,
+                                                            "used_instead": "all true"} if getattr(self, "_facts_error", None) else {})))
 
     FACT_FIELDS = [("f_cache_checked", "cache_checked_for_lock"), ("f_lock_purges_cache", "lock_purges_key_cache"),
                    ("f_lock_wipes_wscripts", "lock_wipes_witness_scripts"), ("f_lock_wipes_last", "lock_wipes_last_addrs"),
@@ -296,8 +297,17 @@ class C05(Check):
         """the facts of the tree the harness was built from (same extractor as Generated/LockFacts.v)"""
         if getattr(self, "_facts_cache", None) is None:
             import extract_c05
-            res = extract_c05.extract(REPO)
-            self._facts_cache = {n: bool(res[n]) for _, n in self.FACT_FIELDS}
+            self._facts_error = None
+            try:
+                res = extract_c05.extract(REPO)
+                self._facts_cache = {n: bool(res[n]) for _, n in self.FACT_FIELDS}
+            except Exception as e:      # noqa: the extractor refused the source shape
+                # Never crash the check: the refusal is a broken obligation (recorded by the
+                # driver through work/extract_errors.json, and below if that marker is
+                # missing); the correspondence runs with the facts of the repaired code
+                # (all true) so that the oracle can still look for a failing input.
+                self._facts_error = "%s: %s" % (type(e).__name__, str(e)[-1200:])
+                self._facts_cache = {n: True for _, n in self.FACT_FIELDS}
         return self._facts_cache
 
     def _facts_term(self):
@@ -323,6 +333,15 @@ Print bad.
             return start, coq_eval(self.ID, self.render_cases(chunk), "cases_%d" % start)
 
         mism, logs, problems = [], "", []
+        self._facts()
+        if self._facts_error:
+            try:
+                marked = "extract_c05" in json.load(open(os.path.join(WORK, "extract_errors.json")))
+            except (OSError, ValueError):
+                marked = False
+            if not marked:
+                problems.append("facts could not be regenerated from source (harness/cmd/extract-c05): " + self._facts_error)
+            logs += "correspondence evaluated with all facts = true (extractor refused the source)\n"
         with ThreadPoolExecutor(max_workers=min(14, max(1, len(starts)))) as ex:
             results = list(ex.map(one, starts))
         for start, (rc, out, err) in results:
